@@ -252,7 +252,7 @@ class MirFile:
             return self._fn_cache[key]
         if not hasattr(self, "_text"):
             self._text = "\n".join(self.lines)
-        mm = re.search(r"\nconst (?:\S*::)?%s::promoted\[%s\]: [^=]*= \{(.*?)\n\}" % (re.escape(tail), k), self._text, re.S)
+        mm = re.search(r"\nconst [^\n=]*?\b%s::promoted\[%s\]: [^=\n]*= \{(.*?)\n\}" % (re.escape(tail), k), self._text, re.S)
         val = None
         if mm:
             body = mm.group(1)
@@ -267,6 +267,21 @@ class MirFile:
                 val = ("named", r.group(1))
         self._fn_cache[key] = val
         return val
+
+    def const_bytes(self, name_regex, depth=0):
+        """Bytes of a `const NAME: [u8; N]` / `&[u8; N]` item defined by a byte-string literal (one indirection allowed)."""
+        if not hasattr(self, "_text"):
+            self._text = "\n".join(self.lines)
+        m = re.search(r"\nconst (?:\S*::)?%s: [^=]*= \{(.*?)\n\}" % name_regex, self._text, re.S)
+        if not m:
+            return None
+        b = re.search(r'const b"((?:[^"\\]|\\.)*)"', m.group(1))
+        if b:
+            return b.group(1).encode().decode("unicode_escape").encode("latin1")
+        r = re.search(r"= const ([\w:]+);", m.group(1))
+        if r and depth < 3:
+            return self.const_bytes(re.escape(r.group(1).split("::")[-1]), depth + 1)
+        return None
 
     def const_value(self, name_regex):
         """Evaluate a simple `const NAME: T = { ... }` item: supports literal and one checked Mul/Add of literals."""
